@@ -990,6 +990,34 @@ func (s *symFn) call(c *ssa.Call) *Sym {
 				sub.params[prm] = args[i]
 			}
 		}
+		// a local closure called where it is defined: its captured variables are the enclosing function's cells as they
+		// are at the call (a record variable: the cell's fields; a plain variable: its one dominating store)
+		if mc, ok := cc.Value.(*ssa.MakeClosure); ok {
+			for i, fv := range callee.FreeVars {
+				if i >= len(mc.Bindings) {
+					break
+				}
+				al, ok := mc.Bindings[i].(*ssa.Alloc)
+				if !ok {
+					continue
+				}
+				// only cells nobody writes behind the enclosing function's back: no other closure shares the cell
+				shared := false
+				for _, ref := range *al.Referrers() {
+					if other, ok := ref.(*ssa.MakeClosure); ok && other != mc {
+						shared = true
+					}
+				}
+				if shared {
+					continue
+				}
+				if _, isStruct := al.Type().Underlying().(*types.Pointer).Elem().Underlying().(*types.Struct); isStruct {
+					sub.params[fv] = s.structCell(al, c)
+				} else if st, ok := s.dominatingStore(al, c); ok && st != nil {
+					sub.params[fv] = s.val(st.Val)
+				}
+			}
+		}
 		r := sub.returnSym()
 		if has, _ := r.hasUnknown(); !has {
 			return r
